@@ -206,8 +206,8 @@ Definition negate (r : rval) : rval := match r with RV (VBool b) => RV (VBool (n
 (* Expression.Evaluate on a binary node, apart from the recursive calls *)
 Definition bin_left_fail (o : op) (lres : res rval) : option (res rval) :=
   match o, lres with
-  | OAnd, Err | OOr, Err => Some Err
-  | OAnd, Panic | OOr, Panic => Some Panic
+  | OAnd, Err | OOr, Err => Some Err          (* the logical operators return the left operand's error at once *)
+  | _, Panic => Some Panic                    (* a panic unwinds immediately: the right operand is never evaluated *)
   | _, _ => None
   end.
 Definition bin_shortcut (o : op) (fx : facts) (lres : res rval) : option rval :=
